@@ -665,7 +665,7 @@ func TestC04Random(t *testing.T) {
 	for i, tr := range trs {
 		bases[i] = baseline(t, tr)
 	}
-	ev.Check(t, 1500, 10000, func(rt *rapid.T) {
+	ev.Check(t, 6000, 30000, func(rt *rapid.T) {
 		i := rapid.IntRange(0, len(trs)-1).Draw(rt, "transcript")
 		tr, base := trs[i], bases[i]
 		kind := rapid.SampledFrom([]string{"cut", "cut", "readerr", "writeerr", "cancel", "cancel"}).Draw(rt, "kind")
